@@ -82,7 +82,7 @@ pub fn spell(neg: bool, m: &[u8], sp: &Value, ty: &str) -> String {
         digits = if digits.len() > 1 { format!("{}_{}", &digits[..1], &digits[1..]) } else { format!("{}_", digits) };
     }
     let prefix = match radix { 16 => "0x", 8 => "0o", 2 => "0b", _ => "" };
-    let suffix = match sp["suffix"].as_str().unwrap() { "own" => ty, "other" => if ty == "i64" { "u16" } else { "i64" }, _ => "" };
+    let suffix = match sp["suffix"].as_str().unwrap() { "own" => ty, "other" => if ty == "i64" { "u16" } else { "i64" }, "float" => if m.len() % 2 == 0 { "f32" } else { "f64" }, _ => "" };
     let sign = if neg { "-" } else if sp["plus"] == true { "+" } else { "" };
     let lit = format!("{}{}{}{}", sign, prefix, digits, suffix);
     if sp["quoted"] == true { format!("\"{}\"", lit) } else { lit }
@@ -159,7 +159,8 @@ fn item_texts(it: &Value) -> Vec<String> {
                 ("str", "digits") => vec!["\"17\"", "\"42\""],
                 ("str", "float") => vec!["\"1.5\"", "\"2e3\"", "\"-0.0\"", "\"inf\"", "\"NaN\""],
                 ("str", "one_char") => vec!["\"x\"", "\"\u{e9}\"", "r#\"\"\"#"],
-                ("str", "multi") => vec!["\"xy\"", "\"hello world\"", "r#\"a \"q\" b\"#"],
+                // also a long value whose 64th byte falls inside a multi-byte character (an error that echoes the value must not cut it there)
+                ("str", "multi") => vec!["\"xy\"", "\"hello world\"", "r#\"a \"q\" b\"#", "\"xxxxxxxxxxxxxxxxxxxxxxxxxxxxxxxxxxxxxxxxxxxxxxxxxxxxxxxxxxxxxxx\u{e9}\u{e9}\u{e9} tail\""],
                 ("str", "empty") => vec!["\"\""],
                 x => panic!("{:?}", x),
             };
